@@ -362,9 +362,10 @@ var c13RolePrefixes = map[string][]string{
 // "" = not comparable (documented in mediamtx.yml: the secure RTSP listener uses the srtp*/multicastSRT* parameters;
 // the plain listeners carry no certificate; rtspUDPReadBufferSize overrides udpReadBufferSize for RTSP).
 var c13WiringExceptions = map[string]map[string]string{
-	"rtspServer":  {"ServerKey": "", "ServerCert": "", "UDPReadBufferSize": ""},
-	"rtmpServer":  {"ServerKey": "", "ServerCert": ""},
-	"rtspsServer": {"RTPAddress": "SRTPAddress", "RTCPAddress": "SRTCPAddress", "MulticastRTPPort": "MulticastSRTPPort", "MulticastRTCPPort": "MulticastSRTCPPort", "UDPReadBufferSize": ""},
+	"rtspServer":   {"ServerKey": "", "ServerCert": "", "UDPReadBufferSize": ""},
+	"rtmpServer":   {"ServerKey": "", "ServerCert": ""},
+	"webRTCServer": {"ICEServers": "WebRTCICEServers2"},
+	"rtspsServer":  {"RTPAddress": "SRTPAddress", "RTCPAddress": "SRTCPAddress", "MulticastRTPPort": "MulticastSRTPPort", "MulticastRTCPPort": "MulticastSRTCPPort", "UDPReadBufferSize": ""},
 }
 
 var c13DebugWiring = false
